@@ -223,3 +223,196 @@ Proof.
   rewrite skipn_exact by (apply length_of_lenN; exact Lk').
   destruct (N.eqb_spec (crc32 (hk' ++ b')) (get32 c4')) as [X|_]; [contradiction|]. reflexivity.
 Qed.
+
+(* ---------------------------------------------------------------------------------- *)
+(* a flip INSIDE the length field: an error, unless a strictly shorter frame cut out of the
+   same bytes collides with the original under CRC-32 (cannot be excluded by any theorem) *)
+
+Lemma get16_inj c c' : lenN c = 2 -> lenN c' = 2 -> wf_bytes c -> wf_bytes c' ->
+  get16 c = get16 c' -> c = c'.
+Proof.
+  intros L L' W W' E.
+  destruct c as [|a0 [|a1 [|? ?]]]; try (exfalso; revert L; unfold lenN; cbn [length]; lia).
+  destruct c' as [|b0 [|b1 [|? ?]]]; try (exfalso; revert L'; unfold lenN; cbn [length]; lia).
+  unfold wf_bytes in W, W'.
+  repeat match goal with H : Forall _ (_ :: _) |- _ => inversion H; clear H; subst end.
+  rewrite <- (be16_get16 a0 a1 []) by assumption.
+  rewrite <- (be16_get16 b0 b1 []) by assumption. rewrite E. reflexivity.
+Qed.
+
+Lemma get24_inj c c' : lenN c = 3 -> lenN c' = 3 -> wf_bytes c -> wf_bytes c' ->
+  get24 c = get24 c' -> c = c'.
+Proof.
+  intros L L' W W' E.
+  destruct c as [|a0 [|a1 [|a2 [|? ?]]]]; try (exfalso; revert L; unfold lenN; cbn [length]; lia).
+  destruct c' as [|b0 [|b1 [|b2 [|? ?]]]]; try (exfalso; revert L'; unfold lenN; cbn [length]; lia).
+  unfold wf_bytes in W, W'.
+  repeat match goal with H : Forall _ (_ :: _) |- _ => inversion H; clear H; subst end.
+  rewrite <- (be24_get24 a0 a1 a2 []) by assumption.
+  rewrite <- (be24_get24 b0 b1 b2 []) by assumption. rewrite E. reflexivity.
+Qed.
+
+(* the length read from a frame whose bit i (inside the first t bytes) was flipped differs *)
+Lemma getlen_flip_ne t (getlen : bytes -> N) m i :
+  (forall l, getlen (takeN t l) = getlen l) ->
+  (forall c c', lenN c = t -> lenN c' = t -> wf_bytes c -> wf_bytes c' -> getlen c = getlen c' -> c = c') ->
+  t <= lenN m -> wf_bytes m -> i < 8 * t -> getlen (flip_bit i m) <> getlen m.
+Proof.
+  intros Htake Hinj Lm W Hi E.
+  rewrite <- (Htake (flip_bit i m)), <- (Htake m) in E.
+  rewrite <- (takeN_dropN t m) in E at 1.
+  rewrite flip_bit_app_l in E by (rewrite lenN_takeN; lia).
+  rewrite takeN_app_le in E by (rewrite flip_bit_len, lenN_takeN; lia).
+  rewrite takeN_all in E by (rewrite flip_bit_len, lenN_takeN; lia).
+  apply Hinj in E.
+  - revert E. apply flip_bit_ne. rewrite lenN_takeN; lia.
+  - rewrite flip_bit_len. apply lenN_takeN. assumption.
+  - apply lenN_takeN. assumption.
+  - apply flip_bit_wf. apply wf_bytes_takeN. assumption.
+  - apply wf_bytes_takeN. assumption.
+Qed.
+
+Definition crc_collision (K hs : nat) (frame h' b' : bytes) : Prop :=
+  lenN h' + lenN b' < lenN frame
+  /\ firstn K h' <> firstn K frame
+  /\ crc32 (firstn K h' ++ b') = crc32 (firstn K frame ++ skipn hs frame).
+
+Theorem len_flip_partial_v1 dec unzip hd frame p0 i s p1 :
+  wf_bytes frame -> accepted (read_packet_v1 dec unzip hd [frame] p0) ->
+  i < 16 -> concat s = flip_bit i frame ->
+  is_err (r_out (read_packet_v1 dec unzip hd s p1))
+  \/ exists h' b', r_out (read_head_body_v1 s) = Ok (h', b') /\ crc_collision 10 14 frame h' b'.
+Proof.
+  intros W [[q Hq] Hrest] Hi Hs.
+  pose proof (read_packet_v1_flat dec unzip hd [frame] p0) as F. cbv zeta in F.
+  cbn [concat] in F. rewrite app_nil_r in F. rewrite Hq, Hrest in F.
+  unfold f_packet_v1, f_hb_v1 in F.
+  pose proof (f_read_hb_bounded hs1 max1 get16 hs1_le_max1 frame) as B.
+  destruct (f_read_hb hs1 max1 get16 frame) as [[[o rest] al] rd] eqn:E.
+  cbn [lift_unmarshal] in F. injection F as F1 F2 F3 F4. subst rest.
+  destruct o as [[h b]|e|]; try discriminate.
+  destruct B as (_ & _ & _ & B). destruct (B h b eq_refl) as (Lh & Lsum & [R1 R2] & Hd).
+  rewrite app_nil_r in Hd. clear B.
+  symmetry in F1. unfold unmarshal_v1 in F1. rewrite Lh, N.ltb_irrefl in F1.
+  destruct (calc_checksum_v1 h b =? get32 (skipn 10 h)) eqn:Hc; cbn [negb] in F1; [|discriminate].
+  apply N.eqb_eq in Hc. unfold calc_checksum_v1 in Hc.
+  assert (Lframe : lenN frame = get16 h) by (rewrite Hd, lenN_app; lia).
+  assert (Hhs : hs1 = 14) by reflexivity.
+  assert (Eh : h = takeN 14 frame) by (rewrite Hd, <- Hhs, <- Lh; symmetry; apply takeN_app_exact).
+  assert (Eb : b = skipn 14 frame).
+  { rewrite Hd. symmetry. apply skipn_exact. apply length_of_lenN. rewrite Lh. reflexivity. }
+  assert (Gh : get16 h = get16 frame) by (rewrite Eh; apply get16_takeN; lia).
+  (* the damaged frame *)
+  set (f' := flip_bit i frame) in *.
+  assert (Lf' : lenN f' = lenN frame) by apply flip_bit_len.
+  assert (Gne : get16 f' <> get16 frame).
+  { apply (getlen_flip_ne 2); try assumption; try lia.
+    - intros l. apply get16_takeN. lia.
+    - exact get16_inj. }
+  pose proof (read_packet_v1_flat dec unzip hd s p1) as Gf. cbv zeta in Gf. rewrite Hs in Gf.
+  pose proof (head_body_v1_flat s) as Hf. cbv zeta in Hf. rewrite Hs in Hf.
+  unfold f_packet_v1 in Gf. unfold f_hb_v1 in *.
+  pose proof (f_read_hb_bounded hs1 max1 get16 hs1_le_max1 f') as B'.
+  destruct (f_read_hb hs1 max1 get16 f') as [[[o' rest'] al'] rd'] eqn:E'.
+  cbn [lift_unmarshal] in Gf. injection Gf as G1 _ _ _. injection Hf as H1 _ _ _.
+  destruct B' as (Bp & _ & _ & B').
+  destruct o' as [[h' b']|e'|]; [|left; eexists; exact G1|contradiction].
+  destruct (B' h' b' eq_refl) as (Lh' & Lsum' & [R1' R2'] & Hd').
+  rewrite G1. unfold unmarshal_v1. rewrite Lh', N.ltb_irrefl.
+  destruct (calc_checksum_v1 h' b' =? get32 (skipn 10 h')) eqn:Hc'; cbn [negb];
+    [|left; eexists; reflexivity].
+  right. exists h', b'. split; [exact H1|].
+  apply N.eqb_eq in Hc'. unfold calc_checksum_v1 in Hc'.
+  assert (Eh' : h' = takeN 14 f') by (rewrite Hd', <- Hhs, <- Lh'; symmetry; apply takeN_app_exact).
+  assert (Gh' : get16 h' = get16 f') by (rewrite Eh'; apply get16_takeN; lia).
+  assert (Lle : lenN h' + lenN b' <= lenN f') by (pose proof (f_equal lenN Hd') as X; rewrite !lenN_app in X; lia).
+  (* bytes 2.. of the header are untouched *)
+  assert (Ef' : f' = flip_bit i (takeN 10 frame) ++ dropN 10 frame).
+  { unfold f'. rewrite <- (takeN_dropN 10 frame) at 1. apply flip_bit_app_l. rewrite lenN_takeN; lia. }
+  assert (L10 : lenN (flip_bit i (takeN 10 frame)) = 10) by (rewrite flip_bit_len; apply lenN_takeN; lia).
+  assert (L10' : lenN (takeN 10 frame) = 10) by (apply lenN_takeN; lia).
+  assert (Hh'2 : h' = flip_bit i (takeN 10 frame) ++ takeN 4 (dropN 10 frame)).
+  { rewrite Eh', Ef'. rewrite takeN_app_ge by (rewrite L10; lia). rewrite L10. reflexivity. }
+  assert (Hh2 : h = takeN 10 frame ++ takeN 4 (dropN 10 frame)).
+  { rewrite Eh. rewrite <- (takeN_dropN 10 frame) at 1.
+    rewrite takeN_app_ge by (rewrite L10'; lia). rewrite L10'. reflexivity. }
+  assert (Ek' : firstn 10 h' = flip_bit i (takeN 10 frame)).
+  { rewrite Hh'2. apply firstn_exact. apply length_of_lenN. exact L10. }
+  assert (Es' : skipn 10 h' = skipn 10 h).
+  { rewrite Hh'2, Hh2. rewrite !skipn_exact by (apply length_of_lenN; assumption). reflexivity. }
+  unfold crc_collision. split; [|split].
+  - rewrite Gh' in Lsum'. rewrite Gh in Lframe. lia.
+  - rewrite Ek'. rewrite <- takeN_firstn with (n := 10). apply flip_bit_ne. rewrite lenN_takeN; lia.
+  - rewrite Hc', Es', <- Hc. rewrite Eh at 1. rewrite takeN_firstn. change (N.to_nat 14) with 14%nat.
+    rewrite firstn_firstn. change (Nat.min 10 14) with 10%nat. rewrite Eb. reflexivity.
+Qed.
+
+Theorem len_flip_partial_v2 dec unzip hd frame p0 i s p1 :
+  wf_bytes frame -> accepted (read_packet_v2 dec unzip hd [frame] p0) ->
+  i < 24 -> concat s = flip_bit i frame ->
+  is_err (r_out (read_packet_v2 dec unzip hd s p1))
+  \/ exists h' b', r_out (read_head_body_v2 s) = Ok (h', b') /\ crc_collision 16 20 frame h' b'.
+Proof.
+  intros W [[q Hq] Hrest] Hi Hs.
+  pose proof (read_packet_v2_flat dec unzip hd [frame] p0) as F. cbv zeta in F.
+  cbn [concat] in F. rewrite app_nil_r in F. rewrite Hq, Hrest in F.
+  unfold f_packet_v2, f_hb_v2 in F.
+  pose proof (f_read_hb_bounded hs2 max2 get24 hs2_le_max2 frame) as B.
+  destruct (f_read_hb hs2 max2 get24 frame) as [[[o rest] al] rd] eqn:E.
+  cbn [lift_unmarshal] in F. injection F as F1 F2 F3 F4. subst rest.
+  destruct o as [[h b]|e|]; try discriminate.
+  destruct B as (_ & _ & _ & B). destruct (B h b eq_refl) as (Lh & Lsum & [R1 R2] & Hd).
+  rewrite app_nil_r in Hd. clear B.
+  symmetry in F1. unfold unmarshal_v2 in F1. rewrite Lh, N.ltb_irrefl in F1.
+  destruct (calc_checksum_v2 h [] b =? get32 (skipn 16 h)) eqn:Hc; cbn [negb] in F1; [|discriminate].
+  apply N.eqb_eq in Hc. unfold calc_checksum_v2 in Hc. cbn [app] in Hc.
+  assert (Lframe : lenN frame = get24 h) by (rewrite Hd, lenN_app; lia).
+  assert (Hhs : hs2 = 20) by reflexivity.
+  assert (Eh : h = takeN 20 frame) by (rewrite Hd, <- Hhs, <- Lh; symmetry; apply takeN_app_exact).
+  assert (Eb : b = skipn 20 frame).
+  { rewrite Hd. symmetry. apply skipn_exact. apply length_of_lenN. rewrite Lh. reflexivity. }
+  assert (Gh : get24 h = get24 frame) by (rewrite Eh; apply get24_takeN; lia).
+  (* the damaged frame *)
+  set (f' := flip_bit i frame) in *.
+  assert (Lf' : lenN f' = lenN frame) by apply flip_bit_len.
+  assert (Gne : get24 f' <> get24 frame).
+  { apply (getlen_flip_ne 3); try assumption; try lia.
+    - intros l. apply get24_takeN. lia.
+    - exact get24_inj. }
+  pose proof (read_packet_v2_flat dec unzip hd s p1) as Gf. cbv zeta in Gf. rewrite Hs in Gf.
+  pose proof (head_body_v2_flat s) as Hf. cbv zeta in Hf. rewrite Hs in Hf.
+  unfold f_packet_v2 in Gf. unfold f_hb_v2 in *.
+  pose proof (f_read_hb_bounded hs2 max2 get24 hs2_le_max2 f') as B'.
+  destruct (f_read_hb hs2 max2 get24 f') as [[[o' rest'] al'] rd'] eqn:E'.
+  cbn [lift_unmarshal] in Gf. injection Gf as G1 _ _ _. injection Hf as H1 _ _ _.
+  destruct B' as (Bp & _ & _ & B').
+  destruct o' as [[h' b']|e'|]; [|left; eexists; exact G1|contradiction].
+  destruct (B' h' b' eq_refl) as (Lh' & Lsum' & [R1' R2'] & Hd').
+  rewrite G1. unfold unmarshal_v2. rewrite Lh', N.ltb_irrefl.
+  destruct (calc_checksum_v2 h' [] b' =? get32 (skipn 16 h')) eqn:Hc'; cbn [negb];
+    [|left; eexists; reflexivity].
+  right. exists h', b'. split; [exact H1|].
+  apply N.eqb_eq in Hc'. unfold calc_checksum_v2 in Hc'. cbn [app] in Hc'.
+  assert (Eh' : h' = takeN 20 f') by (rewrite Hd', <- Hhs, <- Lh'; symmetry; apply takeN_app_exact).
+  assert (Gh' : get24 h' = get24 f') by (rewrite Eh'; apply get24_takeN; lia).
+  assert (Lle : lenN h' + lenN b' <= lenN f') by (pose proof (f_equal lenN Hd') as X; rewrite !lenN_app in X; lia).
+  (* bytes 2.. of the header are untouched *)
+  assert (Ef' : f' = flip_bit i (takeN 16 frame) ++ dropN 16 frame).
+  { unfold f'. rewrite <- (takeN_dropN 16 frame) at 1. apply flip_bit_app_l. rewrite lenN_takeN; lia. }
+  assert (L10 : lenN (flip_bit i (takeN 16 frame)) = 16) by (rewrite flip_bit_len; apply lenN_takeN; lia).
+  assert (L10' : lenN (takeN 16 frame) = 16) by (apply lenN_takeN; lia).
+  assert (Hh'2 : h' = flip_bit i (takeN 16 frame) ++ takeN 4 (dropN 16 frame)).
+  { rewrite Eh', Ef'. rewrite takeN_app_ge by (rewrite L10; lia). rewrite L10. reflexivity. }
+  assert (Hh2 : h = takeN 16 frame ++ takeN 4 (dropN 16 frame)).
+  { rewrite Eh. rewrite <- (takeN_dropN 16 frame) at 1.
+    rewrite takeN_app_ge by (rewrite L10'; lia). rewrite L10'. reflexivity. }
+  assert (Ek' : firstn 16 h' = flip_bit i (takeN 16 frame)).
+  { rewrite Hh'2. apply firstn_exact. apply length_of_lenN. exact L10. }
+  assert (Es' : skipn 16 h' = skipn 16 h).
+  { rewrite Hh'2, Hh2. rewrite !skipn_exact by (apply length_of_lenN; assumption). reflexivity. }
+  unfold crc_collision. split; [|split].
+  - rewrite Gh' in Lsum'. rewrite Gh in Lframe. lia.
+  - rewrite Ek'. rewrite <- takeN_firstn with (n := 16). apply flip_bit_ne. rewrite lenN_takeN; lia.
+  - rewrite Hc', Es', <- Hc. rewrite Eh at 1. rewrite takeN_firstn. change (N.to_nat 20) with 20%nat.
+    rewrite firstn_firstn. change (Nat.min 16 20) with 16%nat. rewrite Eb. reflexivity.
+Qed.
